@@ -987,14 +987,29 @@ func C18(r *chk.Run) {
 	if r.Replay != nil {
 		return
 	}
+	// weighted shares of the time budget, so that the large family cannot starve the others; what a
+	// family leaves unused goes to the rest
+	weight := map[string]int{"bags": 8, "bag-length-sweeps": 1, "db3": 2, "bag-truncations": 1, "bag-field-mutations": 2}
+	weightLeft := 0
 	for _, f := range fams {
+		weightLeft += weight[f.name]
+	}
+	for _, f := range fams {
+		famDeadline := r.Deadline
+		if left := time.Until(r.Deadline); left > 0 && weightLeft > 0 {
+			famDeadline = time.Now().Add(time.Duration(float64(left) * float64(weight[f.name]) / float64(weightLeft)))
+		}
+		weightLeft -= weight[f.name]
 		if !r.TimeLeft() && !iso.IsWorker() {
 			r.Count(f.name, 0, 0, 0, false, map[string]any{"skipped": "internal deadline"})
 			continue
 		}
 		batch := f.n/(r.Workers*4) + 1
+		if batch > 256 {
+			batch = 256 // the deadline is looked at between batches
+		}
 		t0 := time.Now()
-		res := iso.Run("C18/"+f.name, f.n, batch, r.Workers, 30*time.Second, r.Deadline, f.fn)
+		res := iso.Run("C18/"+f.name, f.n, batch, r.Workers, 30*time.Second, famDeadline, f.fn)
 		r.Count(f.name, res.Calls, res.Inputs, res.Calls, res.Exhaustive, map[string]any{"cases": f.n, "outcome_classes": res.ByClass, "wall_s": time.Since(t0).Seconds(), "worker_restarts": res.Restarts})
 		// a bag the harness generated that go-rosbag reads differently is an error of the harness, not a violation
 		kept := res.Bad[:0]
